@@ -500,6 +500,9 @@ pub fn vertex_histories(max_vertices: usize) -> Vec<Vec<AOp>> {
                 for r2 in [6, 7, 14, 19] {
                     let (res, branch) = subj::lookup_branch(lon, lat, r2);
                     if res.is_ok() && branch == 1000 {
+                        let answered = res.clone().unwrap_or(0);
+                        // locate by the fallback, then draw / label the answered cell on the same thread
+                        out.push(vec![AOp::Lookup(lon, lat, r2), AOp::Boundary(answered, Some(1)), AOp::Centre(answered), AOp::Boundary(answered, None)]);
                         let vv = rg::ll_to_vec(lon, lat);
                         for r1 in [r2 - 1, r2 + 1, r2 + 2] {
                             let sz = geo::cell_size(r1);
